@@ -656,6 +656,8 @@ _CURRENT = [None]
 
 
 class ImplEngine(object):
+    wire_door = 0            # requests that travelled through the real encoder + decoder (class default: some checks
+    #                          build the object without __init__)
     def __init__(self, scripted_crypto=True, workdir=None):
         quiet()
         self.dir = tempfile.mkdtemp(prefix="vimpl", dir=workdir)
